@@ -29,11 +29,11 @@ BASE_MODELS = [
 ]
 
 
-def H(tier, desc, symbolic, bound, unwind=4, rules=(), timeout=None, mem_gb=9, expect=None, extra=(), nonterm=()):
+def H(tier, desc, symbolic, bound, unwind=4, rules=(), timeout=None, mem_gb=9, expect=None, extra=(), nonterm=(), memloop=False):
     """extra: additional CBMC options, e.g. --arrays-uf-always (arrays as uninterpreted functions
     instead of flattening: 238 s -> 1.7 s for symbolic-index writes into a 1024-word bitfield page)."""
     return dict(tier=tier, desc=desc, symbolic=symbolic, bound=bound, unwind=unwind,
-                rules=list(rules), timeout=timeout, mem_gb=mem_gb, expect=expect, extra=list(extra), nonterm=list(nonterm))
+                rules=list(rules), timeout=timeout, mem_gb=mem_gb, expect=expect, extra=list(extra), nonterm=list(nonterm), memloop=memloop)
 
 
 UF = ["--arrays-uf-always"]
@@ -112,8 +112,13 @@ C01 = dict(
         "c01_entry_upgrade_nodes": H("quick", "upgrade+nodes entry size/bytes/decode", "1 node hash, 64 signature bytes", "scalar fields concrete"),
         "c01_entry_upgrade_only": H("quick", "upgrade-only entry size/bytes/decode", "64 signature bytes", "scalar fields concrete (u32/u64 class boundaries)"),
         "c01_entry_upgrade_scalars_encode": H("quick", "upgrade scalars full range, encode side", "fork, ancestors, length: u64 full range; 64 signature bytes", "encode side only"),
+        "c01_oplog_clear_entry_2_4": H("quick", "Oplog::clear(2,4) writes one bitfield-only entry {drop, start 2, length 2} after the pending bytes with the current header bit; decodes back to it", "pending bytes < 1000", "start/end/header bits concrete per instance", timeout=600, extra=FS9000),
+        "c01_oplog_clear_entry_0_1": H("quick", "Oplog::clear(0,1), header bits [1,0]", "pending bytes < 1000", "start/end/header bits concrete per instance", timeout=600, extra=FS9000),
+        "c01_oplog_clear_entry_100_252": H("thorough", "Oplog::clear(100,252), header bits [0,1]", "pending bytes < 1000", "start/end/header bits concrete per instance", timeout=600, extra=FS9000),
+        "c01_oplog_append_changeset_entry": H("quick", "Oplog::append_changeset writes {nodes, upgrade(fork, ancestors, length, signature), bitfield} and returns a header with the changeset's root hash / signature / length", "compared byte positions (root hash, signature, entry bytes)", "one concrete changeset", timeout=900, extra=FS9000, rules=[(r"c01_oplog_append_changeset_entry", 70)], memloop=True),
     },
 )
+C01["functions"] += ["hypercore::oplog::Oplog::{clear,append_changeset,update_header_with_changeset,append_entries}"]
 PROPS["C01"] = C01
 
 # --------------------------------------------------------------------------------------------- C08
@@ -150,8 +155,8 @@ C08 = dict(
         "c08_dyn_open_one_page_first": H("quick", "open: has(j) == bit j of the file; 4096-byte file, byte 0 symbolic", "x: the byte value; j: any index < 4 pages", "file zero elsewhere; byte offset concrete per instance", rules=_BF_RULES, timeout=900, unwind=5, extra=FS9000),
         "c08_dyn_open_one_page_last": H("thorough", "open: has(j) == bit j of the file; 4096-byte file, byte 4095 symbolic", "x: the byte value; j: any index < 4 pages", "file zero elsewhere; byte offset concrete per instance", rules=_BF_RULES, timeout=900, unwind=5, extra=FS9000),
         "c08_dyn_open_two_pages_p0": H("thorough", "open: has(j) == bit j of the file; 8192-byte file (core > 32768 blocks), byte 1027 symbolic", "x: the byte value; j: any index < 4 pages", "file zero elsewhere; byte offset concrete per instance", rules=_BF_RULES, timeout=900, unwind=5, extra=FS9000),
-        "c08_dyn_open_two_pages_p1_first": H("quick", "open: has(j) == bit j of the file; 8192-byte file, byte 4096 symbolic", "x: the byte value; j: any index < 4 pages", "file zero elsewhere; byte offset concrete per instance", rules=_BF_RULES, timeout=900, unwind=5, extra=FS9000),
-        "c08_dyn_open_two_pages_p1_last": H("quick", "open: has(j) == bit j of the file; 8192-byte file, byte 8191 symbolic", "x: the byte value; j: any index < 4 pages", "file zero elsewhere; byte offset concrete per instance", rules=_BF_RULES, timeout=900, unwind=5, extra=FS9000),
+        "c08_dyn_open_two_pages_p1_first": H("thorough", "open: has(j) == bit j of the file; 8192-byte file, byte 4096 symbolic", "x: the byte value; j: any index < 4 pages", "file zero elsewhere; byte offset concrete per instance", rules=_BF_RULES, timeout=900, unwind=5, extra=FS9000),
+        "c08_dyn_open_two_pages_p1_last": H("thorough", "open: has(j) == bit j of the file; 8192-byte file, byte 8191 symbolic", "x: the byte value; j: any index < 4 pages", "file zero elsewhere; byte offset concrete per instance", rules=_BF_RULES, timeout=900, unwind=5, extra=FS9000),
         "c08_dyn_open_partial_page": H("quick", "open: has(j) == bit j of the file; 4100-byte file (short last page), byte 4099 symbolic", "x: the byte value; j: any index < 4 pages", "file zero elsewhere; byte offset concrete per instance", rules=_BF_RULES, timeout=900, unwind=5, extra=FS9000),
         "c08_bitfield_open_size_step": H("quick", "open(size) asks for whole words only", "store length < 2^40", "none", unwind=6, extra=UF),
         "c08_contiguous_length_step": H("quick", "inductive step of contiguous-length maintenance", "window w: all 2^15 patterns of blocks 0..14; update drop/start/length anywhere inside", "16-block window", rules=_BF_RULES, timeout=600, unwind=6, extra=UF),
@@ -183,7 +188,7 @@ C06 = dict(
         "c06_open_trailing_partial": _OP("entry followed by a trailing partial-flagged entry: dropped, log continues after the kept entry"),
         "c06_open_only_partial": _OP("only a partial-flagged entry: dropped"),
         "c06_open_finished_batch": _OP("partial, partial, final: a finished atomic batch is kept whole"),
-        "c06_leader_entry": H("quick", "leader (crc, len<<2|partial<<1|header_bit) of an entry vs reference; validate_leader reads it back", "clear entry: drop bit, start < 253, length < 253 (3 symbolic payload bytes), partial bit, header bit", "4 payload bytes (CRC equivalence over many symbolic bytes is XOR-hard for SAT)", timeout=900, rules=[(r"crc32_bitwise", 30), (r"update_slow", 30)]),
+        "c06_leader_entry": H("thorough", "leader (crc, len<<2|partial<<1|header_bit) of an entry vs reference; validate_leader reads it back", "clear entry: drop bit, start < 253, length < 253 (3 symbolic payload bytes), partial bit, header bit", "4 payload bytes (CRC equivalence over many symbolic bytes is XOR-hard for SAT)", timeout=900, rules=[(r"crc32_bitwise", 30), (r"update_slow", 30)]),
     },
 )
 PROPS["C06"] = C06
@@ -207,8 +212,11 @@ C02 = dict(
         "c02_open_phase_ft": _OP("header bits [0,1] (slot 1 newest): current entry (bit 1) kept, stale dropped"),
         "c02_open_phase_ff_both": _OP("header bits [0,0] with both slots (slot 0 newest)", tier="thorough"),
         "c02_open_valid_then_stale": _OP("valid entry followed by a stale one: only the valid one is replayed"),
+        "c02_flush_header_then_truncate": H("quick", "Oplog::flush(header,false): the new header is written into the non-current slot first, the entries are truncated second", "both header bits", "header contents concrete", timeout=600, unwind=5, extra=FS9000),
+        "c02_fresh_header_then_truncate": H("quick", "creating an oplog: header into slot 0 first, then the file is cut at 8192", "none", "concrete", timeout=600, unwind=5, extra=FS9000),
     },
 )
+C02["functions"] += ["hypercore::oplog::Oplog::{flush,insert_header,fresh}", "hypercore::tree::MerkleTree::{truncate,add_node,required_node}"]
 C02["mir"] = True
 PROPS["C02"] = C02
 
@@ -267,8 +275,8 @@ PROPS["C12"] = C12
 _TREE_RULES = [(r"IterMut.*4fold|13generic_array|GenericArray", 34), (r"nodes_to_root", 66), (r"flat_tree|9flat_tree", 45), (r"writer_tree|block_data|prefix_sum|tree_shape|ref_tree", 70), (r"increase_cache", 10),
                (r"create_valueless_proof|upgrade_proof|block_and_seek_proof|seek_proof|seek_from_head|seek_trusted_tree|byte_offset_from_nodes|missing_nodes|verify_tree|verify_upgrade", 45),
                (r"SigningKey13verifying_key", 34), (r"ed25519_dalek", 120), (r"6absorb", 40), (r"blake2", 200)]
-def _T(desc="", sym="", bound="", tier="quick", timeout=900, unwind=6):
-    return H(tier, desc, sym, bound, rules=_TREE_RULES, timeout=timeout, unwind=unwind)
+def _T(desc="", sym="", bound="", tier="quick", timeout=900, unwind=6, extra=(), mem_gb=9):
+    return H(tier, desc, sym, bound, rules=_TREE_RULES, timeout=timeout, unwind=unwind, extra=extra, mem_gb=mem_gb)
 C09 = dict(
     title="No request or proof from a peer can panic the node",
     variant="model",
@@ -398,6 +406,30 @@ C13 = dict(
     },
 )
 PROPS["C13"] = C13
+
+
+# (registered here because they use the tree rules)
+C02["harnesses"].update({
+        "c02_replay_truncate_merges_roots": _T("replay on open: MerkleTree::truncate to a length where two roots merge yields exactly the new root / length / byte length", "length of the new leaf", "3 -> 4 blocks", timeout=900, extra=UF, mem_gb=16),
+        "c02_replay_truncate_grow_and_shrink": _T("MerkleTree::truncate to lengths where the root list shrinks / stays", "none", "3-block literal tree", timeout=600, extra=UF, mem_gb=16),
+})
+C03["harnesses"].update({
+    "c03_byte_offset_in_changeset_later_root": _T("a block delivered with an upgrade under the second root of the upgraded tree lands after the first root's bytes (empty replica)", "lengths of root 1 and leaf 4 < 2^40", "3-block upgraded tree", timeout=600),
+    "c03_byte_offset_in_changeset_roots_differ": _T("same on a replica whose own roots differ from the changeset's", "three node lengths", "replica of 1 block upgrading to 3", timeout=600),
+    "c03_block_plus_upgrade_honest": _T("honest proof with a block below the replica's length plus an upgrade from its length is accepted and commitable", "2 block bytes, sibling hash, new leaf hash", "replica 2 blocks -> 3", timeout=1500),
+})
+C04["harnesses"].update({
+    "c04_block_plus_upgrade_altered_block": _T("a genuine upgrade does not switch off the block check: block below the replica's length with one altered byte + valid upgrade is refused, replica unchanged", "position and value of the altered byte, 2 block bytes, sibling hash, new leaf hash", "replica 2 blocks -> 3", timeout=1500),
+})
+C05["groups"] = [dict(variant="model", patterns=["c05_", "c02_replay_truncate_merges"])]
+C05["harnesses"]["c02_replay_truncate_merges_roots"] = C02["harnesses"]["c02_replay_truncate_merges_roots"]
+C09["harnesses"].update({
+    "c09_seek_untrusted_flushed_root": _T("seek against a sub-tree whose root node is not in memory: any byte offset below 2^40 gives a value/instructions/error, never an overflow", "bytes < 2^40", "3-block literal tree, root 4 flushed", timeout=600),
+    "c09_seek_untrusted_in_memory": _T("seek_untrusted_tree with every node in memory, either root", "bytes < 2^40, which root", "3-block literal tree", timeout=600),
+})
+C10["groups"] = [dict(variant="st", patterns=["c10_"]), dict(variant="model", patterns=["c02_flush_header_then", "c02_fresh_header_then"])]
+C10["harnesses"]["c02_flush_header_then_truncate"] = C02["harnesses"]["c02_flush_header_then_truncate"]
+C10["harnesses"]["c02_fresh_header_then_truncate"] = C02["harnesses"]["c02_fresh_header_then_truncate"]
 
 # --------------------------------------------------------------------------------------------- S-level
 # Rules for the S-harnesses (real core.rs + oplog + tree + bitfield against the storage model).
